@@ -11,7 +11,9 @@ SEED="${VERIF_SEED:-0}"; [ "$SEED" = "0" ] && SEED=1   # libFuzzer: -seed=0 mean
 export CARGO_NET_OFFLINE=true CARGO_TERM_COLOR=never RUSTFLAGS="--cfg num_bigint_verif"
 SUM="$V/work/fuzz_$ID.txt"; mkdir -p "$V/work"; : > "$SUM"
 t0=$(date +%s)
-( cd "$H" && cargo +nightly fuzz build case >"$V/work/fuzz_build.log" 2>&1 ) || { echo "INCONCLUSIVE property=$ID fuzz target does not build (work/fuzz_build.log)"; exit 2; }
+# the replay binaries used to confirm artifacts must be built from the same /repo tree as the fuzz target
+( cd "$H" && env -u RUSTFLAGS cargo build --release -p verif >"$V/work/fuzz_build.log" 2>&1 && env -u RUSTFLAGS cargo build --profile dbg -p verif >>"$V/work/fuzz_build.log" 2>&1 ) || { echo "INCONCLUSIVE property=$ID harness does not build (work/fuzz_build.log)"; exit 2; }
+( cd "$H" && cargo +nightly fuzz build case >>"$V/work/fuzz_build.log" 2>&1 ) || { echo "INCONCLUSIVE property=$ID fuzz target does not build (work/fuzz_build.log)"; exit 2; }
 C="$F/corpus/$ID"; A="$F/artifacts/$ID"; rm -rf "$C" "$A"; mkdir -p "$C" "$A"
 "$REL" fuzz-export "$ID" "$C" 400 >/dev/null
 seeds=$(ls "$C" | wc -l)
